@@ -277,13 +277,15 @@ def time_shift(z, /, shift, crop=False):
     start, stop = 0, 0
     it = np.nditer(shift, flags=["multi_index"])
     for a in it:
+        # axes along which shift is broadcast (length 1) are zeroed entirely
+        mi = tuple(slice(None) if n == 1 else i for i, n in zip(it.multi_index, shift.shape))
         if a < 0:
             a = int(np.floor(a))
-            ix = (np.s_[a:],) + it.multi_index
+            ix = (np.s_[a:],) + mi
             stop = min(stop, a)
         else:
             a = int(np.ceil(a))
-            ix = (np.s_[:a],) + it.multi_index
+            ix = (np.s_[:a],) + mi
             start = max(start, a)
 
         shifted[ix] = 0
